@@ -641,7 +641,10 @@ def run_check(prop, tier, seed):
         for k, o in zip(cases, obs):
             if isinstance(o, dict) and "__harness_exception__" in o:
                 continue
-            msg = c.oracle(k, o)
+            try:
+                msg = c.oracle(k, o)
+            except Exception as e:  # noqa: BLE001 -- an output of a shape no oracle clause foresaw is itself a finding, never a crash
+                msg = f"the implementation's output has an unexpected shape (oracle raised {type(e).__name__}: {str(e)[:200]})"
             if msg:
                 st["oracle_failures"] += 1
                 violations.append((c, k, o, msg))
